@@ -164,6 +164,36 @@ pub struct Setup {
     pub replicas: Vec<Ctor>,
     pub receivers: Vec<RxSpec>,
     pub kernel: Kernel,
+    /// what the sender's thread did *before* this transfer: blocks of other sizes it served
+    /// (throw-away encoders; repair_packets(s, n) each). Anything the library keeps per thread or
+    /// per process between objects is then in whatever state those left behind.
+    #[serde(default, skip_serializing_if = "Vec::is_empty")]
+    pub warm: Vec<Warm>,
+    /// at the end, re-request a sample of the ledger from encoders built on a fresh OS thread
+    /// (empty thread-local state) and compare
+    #[serde(default, skip_serializing_if = "std::ops::Not::not")]
+    pub fresh_check: bool,
+}
+
+#[derive(Clone, Copy, Debug, Serialize, Deserialize, PartialEq)]
+pub struct Warm {
+    pub k: u32,
+    pub s: u32,
+    pub n: u32,
+}
+
+fn cut_blocks(oti: &Oti, data: &[u8], ks: &[u32]) -> Vec<Vec<u8>> {
+    let mut blocks_data: Vec<Vec<u8>> = vec![];
+    let mut off = 0usize;
+    for k in ks {
+        let len = *k as usize * oti.t as usize;
+        let end = (off + len).min(data.len());
+        let mut b = if off < data.len() { data[off..end].to_vec() } else { vec![] };
+        b.resize(len, 0);
+        blocks_data.push(b);
+        off += len;
+    }
+    blocks_data
 }
 
 #[derive(Clone, Debug, Serialize, Deserialize, PartialEq)]
@@ -321,6 +351,8 @@ pub struct Exec {
     replicas: Vec<Replica>,
     rxs: Vec<Rx>,
     ledger: HashMap<(u8, u32), Vec<u8>>,
+    fresh_check: bool,
+    kernel: Kernel,
     window_hits: HashMap<(u8, u32), u8>,
     pub oracles: Oracles,
     pub counters: Counters,
@@ -486,17 +518,15 @@ impl Exec {
         let built = guarded(|| {
             let cfg = real_oti(&oti);
             let ks = block_sizes(&oti);
-            // block data with zero padding, cut by the harness itself
-            let mut blocks_data: Vec<Vec<u8>> = vec![];
-            let mut off = 0usize;
-            for k in &ks {
-                let len = *k as usize * oti.t as usize;
-                let end = (off + len).min(data.len());
-                let mut b = if off < data.len() { data[off..end].to_vec() } else { vec![] };
-                b.resize(len, 0);
-                blocks_data.push(b);
-                off += len;
+            // earlier work of this sender thread (see Setup::warm)
+            for w in &setup.warm {
+                let wcfg = ObjectTransmissionInformation::new(w.k as u64, 1, 1, 1, 1);
+                let wdata: Vec<u8> = (0..w.k).map(|i| (i * 7 + 1) as u8).collect();
+                let e = SourceBlockEncoder::new(0, &wcfg, &wdata);
+                let _ = e.repair_packets(w.s, w.n);
             }
+            // block data with zero padding, cut by the harness itself
+            let blocks_data = cut_blocks(&oti, &data, &ks);
             let mut replicas = vec![];
             for c in &setup.replicas {
                 let r = match c {
@@ -608,6 +638,8 @@ impl Exec {
             rxs,
             ledger: HashMap::new(),
             window_hits: HashMap::new(),
+            fresh_check: setup.fresh_check,
+            kernel: setup.kernel,
             oracles,
             counters: Counters::default(),
             states: HashSet64::default(),
@@ -987,6 +1019,9 @@ impl Exec {
                 self.set_determinism_check(*rx)
             }
             Event::Final => {
+                if self.oracles.c18 && self.fresh_check {
+                    self.fresh_thread_check()?;
+                }
                 if self.oracles.c01 {
                     for i in 0..self.rxs.len() {
                         let all_src = (0..self.ks.len()).all(|b| self.rx_block_has_all_source(i, b));
@@ -998,6 +1033,53 @@ impl Exec {
                 Ok(())
             }
         }
+    }
+
+    /// C18, "however it is requested": a sample of everything this sender emitted is requested once
+    /// more from encoders built on a fresh OS thread (no thread-local history) and must be identical.
+    fn fresh_thread_check(&mut self) -> Result<(), Fail> {
+        let mut keys: Vec<(u8, u32)> = self.ledger.keys().copied().collect();
+        keys.sort();
+        let step = keys.len().div_ceil(96).max(1);
+        let keys: Vec<(u8, u32)> = keys.into_iter().step_by(step).collect();
+        let (oti, cfg, ks, kernel) = (self.oti, self.cfg, self.ks.clone(), self.kernel);
+        let blocks = cut_blocks(&oti, &self.data, &ks);
+        let keys2 = keys.clone();
+        let handle = std::thread::spawn(move || {
+            guarded(move || {
+                set_kernel(kernel);
+                let encs: Vec<SourceBlockEncoder> = blocks.iter().enumerate().map(|(b, d)| SourceBlockEncoder::new(b as u8, &cfg, d)).collect();
+                let mut out: Vec<Vec<u8>> = vec![];
+                let mut srcs: Vec<Option<Vec<EncodingPacket>>> = vec![None; encs.len()];
+                for (sbn, esi) in keys2 {
+                    let b = sbn as usize;
+                    let k = ks[b];
+                    if esi < k {
+                        let sp = srcs[b].get_or_insert_with(|| encs[b].source_packets());
+                        out.push(sp[esi as usize].data().to_vec());
+                    } else {
+                        out.push(encs[b].repair_packets(esi - k, 1).swap_remove(0).data().to_vec());
+                    }
+                }
+                out
+            })
+        });
+        let got = match handle.join() {
+            Ok(Ok(g)) => g,
+            Ok(Err(p)) => return Err(self.sender_panic("re-requesting packets on a fresh thread", p)),
+            Err(_) => return Err(self.fail("C18", "fresh-thread-panic".into(), "the fresh sender thread died".into())),
+        };
+        self.counters.add("fresh_thread_rechecks", keys.len() as u64);
+        for ((sbn, esi), payload) in keys.iter().zip(got) {
+            if self.ledger.get(&(*sbn, *esi)) != Some(&payload) {
+                return Err(self.fail(
+                    "C18",
+                    "history-dependent".into(),
+                    format!("packet (SBN {sbn}, ESI {esi}) as emitted by this sender differs from the same packet requested from an encoder built on a fresh thread: what was served depends on what the thread served before"),
+                ));
+            }
+        }
+        Ok(())
     }
 
     fn current_answer(&self, rx: usize) -> Ans {
